@@ -429,4 +429,41 @@ theorem inv_of_reach {c : Cfg} {s : St} {o : List Out} (h : Reach c s o) : Inv c
   | init => exact inv_init c
   | step e _ ih => exact inv_step ih e
 
+/-! ### fields left alone by the tracker loop and by `addPending` -/
+
+theorem afterWake_cnt_held (s : St) (obj : Entry) :
+    (afterWake s obj).1.cnt = s.cnt ∧ (afterWake s obj).1.held = s.held ∧ (afterWake s obj).1.pc = s.pc := by
+  obtain ⟨-, -, -, r4, r5, r6, -⟩ := removeHead_fields s
+  unfold afterWake
+  split
+  · exact ⟨r6, r5, r4⟩
+  · split
+    · exact ⟨r6, r5, r4⟩
+    · rename_i t _
+      obtain ⟨-, -, -, m4, m5, m6, -⟩ := moveHead_fields s t
+      split
+      · exact ⟨m6, m5, m4⟩
+      · exact ⟨r6, r5, r4⟩
+
+theorem loopStep_cnt_held (c : Cfg) (s : St) :
+    (loopStep c s).1.cnt = s.cnt ∧ (loopStep c s).1.held = s.held := by
+  unfold loopStep
+  split
+  · split <;> simp
+  · split
+    · have := afterWake_cnt_held { s with pc := .run } ‹Entry›; exact ⟨this.1, this.2.1⟩
+    · simp
+  · split
+    · simp
+    · split
+      · simp
+      · have := afterWake_cnt_held s ‹Entry›; exact ⟨this.1, this.2.1⟩
+
+theorem addPending_cnt_held (c : Cfg) (s : St) (p h : Nat) :
+    (addPending c s p h).cnt = s.cnt ∧ (addPending c s p h).held = s.held ∧
+    (addPending c s p h).pc = s.pc := by
+  unfold addPending; split
+  · simp
+  · split <;> simp
+
 end IdenaModel.PushPull
